@@ -3,7 +3,7 @@
    Byte strings are lists of Z; every theorem quantifies over ALL strings (and all schemas / keywords where they occur).
    What is NOT proved is listed in props/C09/meta.json (crash- and hang-freedom of the C++ is exploration only). *)
 From Coq Require Import ZArith List Bool Arith Lia.
-From CV Require Import C09.ParseModel C09.ParseProofs C09.NumProofs C09.LookupProofs C09.FlatProofs.
+From CV Require Import C09.ParseModel C09.ParseProofs C09.NumProofs C09.LookupProofs C09.FlatProofs C09.ValueProofs.
 Import ListNotations.
 Local Open Scope Z_scope.
 
@@ -132,6 +132,27 @@ Theorem C09_case_insensitive_lookup : forall fuel c1 c2 k1 k2 sp,
 Proof. exact key_lookup_case_insensitive. Qed.
 Print Assumptions C09_case_insensitive_lookup.
 
+(* amount of blanks: for a keyword found at pos whose line has no '{' after it, the value is the rest of the line
+   (after the one character that follows the keyword) with its leading and trailing blanks removed, and the resume
+   position is the end of that line -- for every indentation, every run of blanks before and after the value.
+   trimmed_to l core: l = blanks ++ core ++ blanks with core empty or beginning and ending with a non-blank;
+   the core of a text is unique, so the value is a function of the non-blank part alone. *)
+Theorem C09_single_line_value_layout :
+  (forall fuel conf key pos,
+     key <> [] -> key_chars_ok key -> occurs (to_lower conf) key pos -> left_clear conf pos ->
+     let le := match find_if is_lf conf pos with None => length conf | Some nl => nl end in
+     let rest := substr conf (pos + length key + 1) (le - (pos + length key + 1)) in
+     ~ In LBRACE rest ->
+     exists data reg, extract_value fuel conf key pos = KL_found pos data le reg /\ trimmed_to rest data) /\
+  (forall l c1 c2, trimmed_to l c1 -> trimmed_to l c2 -> c1 = c2).
+Proof. split; [exact extract_value_single_line|exact trimmed_unique]. Qed.
+Print Assumptions C09_single_line_value_layout.
+
+(* split_string terminates within the fuel the model gives it, for every text and every delimiter *)
+Theorem C09_split_string_total : forall data delim, split_string data delim <> None.
+Proof. exact split_string_total. Qed.
+Print Assumptions C09_split_string_total.
+
 (* ---------------------------------------------------------------- unknown keywords *)
 
 (* if a configuration is accepted, every non-blank line of what remains after the looked-up values have been erased
@@ -240,6 +261,14 @@ Example C09_example_layout :   (* "a 1\r\nb 2 # c\n\n" and "a 1\nb 2 \n" are the
   strip_comments [97; 32; 49; 13; 10; 98; 32; 50; 32; 35; 32; 99; 10; 10] =
   strip_comments [97; 32; 49; 10; 98; 32; 50; 32; 10].
 Proof. vm_compute. reflexivity. Qed.
+
+(* "  Width \t 0.5 \n", "width 0.5\n" and "WIDTH     0.5\t\t\nname x\n" all give the value "0.5" *)
+Example C09_example_blanks :
+  (exists sp r, key_lookup 40 [32; 32; 87; 105; 100; 116; 104; 32; 9; 32; 48; 46; 53; 32; 10] str_width O = KL_found 2 [48; 46; 53] sp r) /\
+  (exists sp r, key_lookup 40 [119; 105; 100; 116; 104; 32; 48; 46; 53; 10] str_width O = KL_found 0 [48; 46; 53] sp r) /\
+  (exists sp r, key_lookup 40 [87; 73; 68; 84; 72; 32; 32; 32; 32; 32; 48; 46; 53; 9; 9; 10; 110; 97; 109; 101; 32; 120; 10] str_width O
+                = KL_found 0 [48; 46; 53] sp r).
+Proof. repeat split; eexists; eexists; vm_compute; reflexivity. Qed.
 
 Example C09_example_tokens : tokens_of extract_int [49; 32; 50] [1; 2].
 Proof.
